@@ -138,5 +138,49 @@ P["C12"] = {
              tierC("VerifTierCWriterFault", "two", [], T, ["tierC:faulty-store-returned"], "every index of a failing Write call while storing template two"),
              ]}
 
+TB_SETS = {
+    "memo": ["b_basic", "b_toplevel", "b_slice_sel", "b_slice", "b_map", "b_nested", "b_short", "b_shared", "b_forget", "b_ptrswap", "b_forgetcall"],
+    "control": ["b_retract", "b_fail", "b_nilptr"],
+    "values": ["b_compound", "b_args", "b_float", "b_string"],
+}
+FLAGN = {1: "perm", 2: "symsal", 4: "nilP"}
+
+
+def tierB(setname, k, flags, tiers, **kw):
+    fn = "+".join(n for b, n in FLAGN.items() if flags & b) or "plain"
+    r = {"name": "tierB-%s-k%d-%s" % (setname, k, fn), "pkgdir": "zztier", "harness": TIERC_H, "entry": "VerifTierBSet", "args": [setname, k, flags],
+         "tiers": tiers, "templates": [t + ".grl" for t in TB_SETS[setname]], "replay_attempts": 150,
+         "require_reach": ["tierB:execute-returned", "tierB:a-rule-fired", "tierB:quiescent"],
+         "bounds": "template set '%s' (%s): real ASTs built natively, all fact scalars symbolic (integers |v|<1000, floats |v|<1000, bools), <= %d firings; %s" % (
+             setname, ", ".join(TB_SETS[setname]), k, {"plain": "rule order = sorted", "perm": "every iteration order of RuleEntries", "perm+symsal": "every iteration order, symbolic saliences in [-100,100]"}.get(fn, fn))}
+    r.update(kw)
+    return r
+
+
+TIERB_ASSUME = TIERC_ASSUME[:1] + [
+    "Tier B: distinct fact paths do not alias; fact methods have no effect other than their documented one and their result depends on their arguments only (DESIGN §4)",
+    "the C01/C02 oracle is the real interpreter evaluating the rule from scratch on an independently created instance after WorkingMemory.ResetAll (memo-free); C05 is responsible for the interpreter itself",
+    "fact values bounded (|v| < 1000) so that the templates' arithmetic is free of overflow, NaN and infinities, as the properties require",
+    "iteration order of RuleEntries is a quantified input (map rebuilt in a chosen insertion order); native replay retries until Go's iteration order matches",
+]
+P["C01"] = {
+    "design_ref": "DESIGN.md §8 C01", "assumptions": TIERB_ASSUME,
+    "bounds": "Tier B bounded runs: template set 'memo' (field / nested pointer / slice element / map entry / top-level variable / pointer-valued path; short-circuit; shared call; Forget/Changed by variable and by call text), K <= 4 firings, every rule order, symbolic saliences; Tier A: fired rule was satisfied (stub level)",
+    "outside": "rule sets outside the template family; runs longer than K firings; JSON facts; aliasing facts; the inductive memo step of DESIGN §8 is not built",
+    "runs": [tierB("memo", 3, 0, QT), tierB("memo", 3, 3, T), tierB("memo", 4, 1, T), tierA(3, 2, fDeleted | fRetract, QT)]}
+P["C02"] = dict(P["C01"], design_ref="DESIGN.md §8 C02",
+                runs=[tierB("memo", 3, 0, QT), tierB("memo", 3, 3, T), tierB("memo", 4, 1, T), tierB("control", 3, 0, T), tierA(3, 2, fRetract, QT)])
+P["C13"] = {
+    "design_ref": "DESIGN.md §8 C13", "assumptions": TIERB_ASSUME,
+    "bounds": "Tier B: counted method F.Heavy(F.I) shared by 3 rules in different contexts (b_shared) and all other memo templates; K <= 4 firings; invalidations counted from the fired rules' action lists",
+    "outside": "other rule sets; the inductive 'one sweep performs zero calls' step is not built",
+    "runs": [tierB("memo", 3, 0, QT, require_reach=["tierB:execute-returned", "tierB:counted-call-ran"]), tierB("memo", 4, 1, T, require_reach=["tierB:execute-returned", "tierB:counted-call-ran"])]}
+P["C10"]["runs"] += [tierB("control", 3, 0, QT, require_reach=["tierB:self-retract-fired", "tierB:complete-fired"]), tierB("control", 3, 1, T, require_reach=["tierB:self-retract-fired", "tierB:complete-fired"])]
+P["C10"]["assumptions"] = TIERA_ASSUME + TIERB_ASSUME
+P["C10"]["bounds"] += "; Tier B: Retract (self / other / unknown) and Complete in the middle of real action lists (template b_retract) reached through FunctionCall -> GoValueNode.CallFunction -> reflect MethodByName/Call"
+P["C14"]["runs"] += [tierB("control", 3, 0, QT), tierB("control", 3, 1, T)]
+P["C14"]["assumptions"] = TIERA_ASSUME + TIERB_ASSUME
+P["C14"]["bounds"] += "; Tier B: real failures chosen by the solver through the facts (index out of range, integer division by zero, panicking user method, nil pointer; a failing sub-expression shared with a healthy rule)"
+
 json.dump({"properties": P}, open(os.path.join(V, "checks.json"), "w"), indent=1)
 print("properties:", sorted(P))
